@@ -275,6 +275,19 @@ def fault_case(ctx, rng, worker):
                 ctx.excluded += 1
                 continue
             u3(ctx, job, rec, files, count_nontrivial=False)
+            if any(l.lstrip().startswith("#d ") for k, l in enumerate(lines) if k != fidx and l not in body_lines):
+                # a decoration that emits data moves every later address: the decorated program without the fault line
+                # must still be valid, otherwise the case contains a second, unintended fault (e.g. an operand that no
+                # longer fits the smallest encoding and makes two rules tie)
+                ctl_lines = [l for k, l in enumerate(lines) if k != fidx]
+                ctl_body = "\n".join(ctl_lines) + "\n"
+                ctl_files = dict(files)
+                ctl_files[ffile] = (head + "\n\n" + ctl_body) if not use_include else ctl_body
+                ctl = worker.run(lib.asm_job(lib.files_json(ctl_files), want=[]))
+                ctx.evaluated()
+                if not lib.ok(ctl):
+                    ctx.count("decoration-invalidates-the-base-program")
+                    continue
             ctx.monitor("fault-located")
             if lib.ok(rec) or not rec.get("msgs"):
                 ctx.violation("fault-location", {"kind": "fault-not-reported", "fault": kind}, job, "an error", {"ok": lib.ok(rec)})
